@@ -176,12 +176,12 @@ CHECKS = {
               "compile, both sides / fills and row- / column-major a and b: side, uplo, trans, alpha' and the operand addresses solve a x = alpha b "
               "(resp. x a = alpha b) in place of b, or the combination is rejected. B13.herk: every leaf of herk(fill, alpha, a, beta, c) for plain and "
               "conjugated a, both fills and row- / column-major a and c: the zherk call updates the stated triangle of c with a a^H (G = a for C' = c, "
-              "G = conj(a) for C' = c transposed). R13.conj: the in-place gemm wrapper with a conjugated output forwards conj(alpha), conj(beta) and "
+              "G = conj(a) for C' = c transposed); B13.syrk likewise for the real syrk. R13.conj: the in-place gemm wrapper with a conjugated output forwards conj(alpha), conj(beta) and "
               "conjugated operands. B13.l1: argument agreement (count, base, stride, conjugated operand "
               "first in zdotc, the 1 x n zgemv form of dotu) of axpy, copy, swap, scal, dot, nrm2, asum, iamax."),
         design_ref="DESIGN.md 3/C13",
         note=IRNOTE + " Decides the dispatch tables (a necessary condition of the numerical result), not numerical values, not the lazy gemm_range / "
-             "operator forms' evaluation order, and not syrk / trsv / the lazy herk_range. "
+             "operator forms' evaluation order, and not trsv / the lazy herk_range. "
              "Reference-BLAS contract (column-major, ld >= max(1, stored rows)) is encoded in checks/c13.py and trusted.",
         technique="abstract interpretation of -O2 LLVM IR in a polynomial domain, checked against the reference-BLAS index contract",
     ),
